@@ -905,7 +905,7 @@ def shards(tier, seed):
     out = [("wsgi_sse", i) for i in range(len(wsgi_configs(tier)))]
     out.append(("wsgi_stream",))
     out += [("wsgi_sse_charset", n) for n in (1, 2, 3)]
-    out += [("wsgi_sse_writers", 1, k) for k in range(6)]
+    out += [("wsgi_sse_writers", n, k) for n in ((1,) if tier == "quick" else (1, 2)) for k in range(6)]
     out += [("asgi", i) for i in range(len(asgi_configs(tier)))]
     out += [("asgi_x", i) for i in range(len(asgi_extra_configs(tier)))]
     out += [("asgi_shared", kind) for kind in ("stream", "sse")]
@@ -986,7 +986,7 @@ def run_shard(desc, tier):
             if probs:
                 r.violation("wsgi_sse_writers:" + probs[0].split(" ")[0], {"driver": "wsgi_sse_writers", "n": n, "schedule": list(x.choices)},
                             f"two WSGI SendEventResponse streams of {n} event(s) each, written out by two server threads, switches inside the rendering of an event; schedule {x.obs['trace'][-14:]}: {probs[0]}")
-        dfs(lambda prefix: run_wsgi_sse(prefix, n, None, None, False, 0, streams=2, event_of=writers_event, trace_builder=True), on_exec, bound=1 if tier == "quick" else 2, part=(desc[2], 6))
+        dfs(lambda prefix: run_wsgi_sse(prefix, n, None, None, False, 0, streams=2, event_of=writers_event, trace_builder=True), on_exec, bound=1, part=(desc[2], 6))  # (one switch away from a runnable thread; two would be 10^7 executions)
         r.count("states", len(outcomes))
         r.count("distinct_nontrivial")
     elif desc[0] == "denial_stream":
